@@ -176,7 +176,7 @@ func (m *mesh) startNode(n *meshNode) {
 	sub := ev.Subscribe()
 	mp, qc := sub.Channels.MessagePublicationC, sub.Channels.VAAQuorumC
 	n.p = NewProcessor(m.supCtx, n.db, n.lockC, n.setC, n.sendC, n.obsvC, n.reqC, n.injectC, n.signedInC,
-		simSigner{n.key}, gst, ev, nil, govChain, govEmitter)
+		simSigner{n.key, n.key%2 == 1}, gst, ev, nil, govChain, govEmitter)
 	n.stopDr = make(chan struct{})
 	stop, sendC, reqC := n.stopDr, n.sendC, n.reqC
 	go func() { // plays p2p's sending side
